@@ -111,7 +111,7 @@ def versionMinor : Nat :=
 def dumpSections : List String :=
   ["magic+version", "name", "code", "constants", "positions", "lfs"]
 
-/- source: machine.go:45, machine.go:46, parse.go:70, parse.go:727, lex.go:32, api.go:56 -/
+/- source: machine.go:45, machine.go:46, parse.go:70, parse.go:724, lex.go:32, api.go:56 -/
 def limits : List (String × Nat) :=
   [("stackSize", 1024),
    ("blockStackSize", 16),
@@ -209,7 +209,7 @@ def eolRunes : List Nat :=
 def commentRune : Nat :=
   35
 
-/- source: parse.go:268 -/
+/- source: parse.go:265 -/
 def precedences : List (String × Nat) :=
   [("precNone", 0),
    ("precAssign", 1),
@@ -224,7 +224,7 @@ def precedences : List (String × Nat) :=
    ("precCall", 10),
    ("precPrimary", 11)]
 
-/- source: parse.go:286 -/
+/- source: parse.go:283 -/
 def rules : List (String × String × String × String) :=
   [("tLPAREN", "parens", "", "precNone"),
    ("tRPAREN", "", "", "precNone"),
@@ -257,7 +257,7 @@ def rules : List (String × String × String × String) :=
    ("tEOF", "", "", "precNone"),
    ("tFAIL", "", "", "precNone")]
 
-/- source: parse.go:256, parse.go:346, parse.go:377, parse.go:395, parse.go:405, parse.go:416 -/
+/- source: parse.go:253, parse.go:343, parse.go:374, parse.go:392, parse.go:402, parse.go:413 -/
 def recursion : List (String × String) :=
   [("expr", "precAssign"),
    ("binary", "rule.prec + 1"),
@@ -266,7 +266,7 @@ def recursion : List (String × String) :=
    ("boolNot", "precNot"),
    ("unary", "precUnary")]
 
-/- source: parse.go:348 -/
+/- source: parse.go:345 -/
 def binaryEmit : List (String × List String) :=
   [("tEE", ["EQ"]),
    ("tBE", ["EQ", "NOT"]),
@@ -279,7 +279,7 @@ def binaryEmit : List (String × List String) :=
    ("tSTAR", ["MUL"]),
    ("tSLASH", ["DIV"])]
 
-/- source: parse.go:534 -/
+/- source: parse.go:531 -/
 def syncTokens : List String :=
   ["tVAR", "tDEF", "tPRINT", "tEVAL"]
 
